@@ -590,6 +590,56 @@ impl Family for Stage9 {
     }
 }
 
+/// STAGEFLIP: a single capture changes the evaluation's game stage (and with it both kings' tables):
+/// white K on one of the 16 central squares and one white piece X (N, B, R or Q) that can capture the
+/// black queen; black k in a corner region with q, b and n anywhere. White to move. After X takes the
+/// only black queen the material is on the other side of the stage rule; the kings stand where the
+/// two king tables differ most, so one capture moves the evaluation by more than the queen's value.
+pub struct StageFlip;
+impl Family for StageFlip {
+    fn name(&self) -> String {
+        "STAGEFLIP".into()
+    }
+    fn len(&self) -> u64 {
+        64 * 64 * 64 * 64 * 4 * 16 * 12
+    }
+    fn decode(&self, mut i: u64) -> Option<Pos> {
+        let mut take = |n: u64| -> u64 {
+            let v = i % n;
+            i /= n;
+            v
+        };
+        let bb = take(64) as u8;
+        let bn = take(64) as u8;
+        let bq = take(64) as u8;
+        let x = take(64) as u8;
+        let xkind = [KNIGHT, BISHOP, ROOK, QUEEN][take(4) as usize];
+        let wk = take(16);
+        let bk = take(12);
+        let wk_sq = sq_at(2 + (wk % 4) as i8, 2 + (wk / 4) as i8)?;
+        const CORNER: [u8; 12] = [0, 1, 8, 6, 7, 15, 48, 56, 57, 55, 62, 63];
+        let bk_sq = CORNER[bk as usize];
+        let mut p = Pos::empty();
+        for (sq, piece) in [(wk_sq, pc(WHITE, KING)), (bk_sq, pc(BLACK, KING)), (x, pc(WHITE, xkind)), (bq, pc(BLACK, QUEEN)), (bb, pc(BLACK, BISHOP)), (bn, pc(BLACK, KNIGHT))] {
+            if p.board[sq as usize] != EMPTY {
+                return None;
+            }
+            p.board[sq as usize] = piece;
+        }
+        p.stm = WHITE;
+        p.full = 30;
+        if !p.is_legal_position() {
+            return None;
+        }
+        // X (or the king) can take the queen
+        if p.legal().iter().any(|m| m.to == bq && m.captured == QUEEN) {
+            Some(p)
+        } else {
+            None
+        }
+    }
+}
+
 /// CHK5: the white king attacked by a black pawn (either of the two squares), a black slider
 /// anywhere (so that pawn + slider double checks, discovered checks behind the pawn and pins all
 /// occur), one white piece of every kind anywhere, black king anywhere; white to move.
